@@ -1,9 +1,326 @@
 package main
 
 import (
+	"fmt"
+	"strings"
+
+	"github.com/bufbuild/protocompile/experimental/incremental"
+	"github.com/bufbuild/protocompile/internal/zzverif/coop"
 	"github.com/bufbuild/protocompile/internal/zzverif/hx"
+	"github.com/bufbuild/protocompile/internal/zzverif/tape"
+	"github.com/bufbuild/protocompile/internal/zzverif/vsemaphore"
 )
 
+// history operations
+type hop struct {
+	kind   byte // 'R' run, 'P' two concurrent runs, 'E' bump+evict
+	s1, s2 []int
+	node   int
+}
+
+func (o hop) String() string {
+	switch o.kind {
+	case 'R':
+		return fmt.Sprintf("Run%v", o.s1)
+	case 'P':
+		return fmt.Sprintf("Run%v||Run%v", o.s1, o.s2)
+	default:
+		return fmt.Sprintf("Evict(%d)", o.node)
+	}
+}
+
+func histString(hs []hop) string {
+	parts := make([]string, len(hs))
+	for i, o := range hs {
+		parts[i] = o.String()
+	}
+	return strings.Join(parts, ";")
+}
+
+func c33Alphabet(n int) []hop {
+	var a []hop
+	roots := [][]int{{0}}
+	if n >= 2 {
+		roots = append(roots, []int{1}, []int{0, 1})
+	}
+	if n >= 3 {
+		roots = append(roots, []int{n - 1})
+	}
+	for _, r := range roots {
+		a = append(a, hop{kind: 'R', s1: r})
+	}
+	if n >= 2 {
+		a = append(a, hop{kind: 'P', s1: []int{0}, s2: []int{0}}, hop{kind: 'P', s1: []int{0}, s2: []int{1}}, hop{kind: 'P', s1: []int{0, 1}, s2: []int{1}})
+	}
+	for i := 0; i < n; i++ {
+		a = append(a, hop{kind: 'E', node: i})
+	}
+	return a
+}
+
 func runC33(h *hx.H) {
-	h.Infra = append(h.Infra, "not built yet")
+	h.Rule = "every DAG on <=3 (quick) / <=4 (thorough) nodes (edges i->j, i<j) x child order x resolve shape; (a) every history of <=3 operations over {Run(roots), Run||Run, bump+Evict(i)} on the default schedule at parallelism 1..2; (b) every history of <=2 operations that contains a concurrent pair or an eviction, all schedules within the preemption bound at parallelism 1..3; oracle: reference evaluator, reference cache model (exact execution multiset per operation), Changed flags, diagnostics count; non-trivial = execution with >=1 deviation reaching a new canonical state, or a distinct sequential history"
+	maxN := 3
+	if h.Thorough() {
+		maxN = 4
+	}
+	pb := 1
+	if h.Thorough() {
+		pb = 2
+	}
+	for n := 2; n <= maxN; n++ {
+		nb := n * (n - 1) / 2
+		for m := 0; m < 1<<nb; m++ {
+			for variant := 0; variant < 4; variant++ {
+				desc, perChild := variant&1 != 0, variant&2 != 0
+				mk := func() *world {
+					w := &world{n: n, desc: desc, perChild: perChild, changed: map[[2]int][]bool{}}
+					b := 0
+					for i := 0; i < n; i++ {
+						for j := i + 1; j < n; j++ {
+							w.adj[i][j] = m&(1<<b) != 0
+							b++
+						}
+						w.version[i] = 1 << (2 * i)
+					}
+					return w
+				}
+				w0 := mk()
+				edges := 0
+				maxKids := 0
+				for i := 0; i < n; i++ {
+					k := len(node{w0, i}.children())
+					edges += k
+					if k > maxKids {
+						maxKids = k
+					}
+				}
+				if variant != 0 && maxKids < 2 {
+					continue // order / shape only matter with >=2 children
+				}
+				if n == 4 && variant == 3 {
+					continue
+				}
+				alpha := c33Alphabet(n)
+				// (a) sequential histories on the default schedule
+				maxLen := 3
+				var hist []hop
+				var rec func()
+				rec = func() {
+					if len(hist) > 0 {
+						for par := 1; par <= 2; par++ {
+							hh := append([]hop(nil), hist...)
+							name := fmt.Sprintf("C33/seq/n%d/%s/par%d/%s", n, w0.String(), par, histString(hh))
+							if h.Replay != "" && !h.Scenario(name) {
+								continue
+							}
+							h.Explore(hx.Scn{Name: name, Bounds: tape.B(0, 0, 0, 0), Body: c33Body(mk, hh, par)})
+						}
+					}
+					if len(hist) == maxLen || h.TooMany() || h.Expired() {
+						return
+					}
+					for _, o := range alpha {
+						hist = append(hist, o)
+						rec()
+						hist = hist[:len(hist)-1]
+					}
+				}
+				if n <= 3 || variant == 0 {
+					rec()
+				}
+				// (b) interleavings of short histories with a concurrent pair or an eviction
+				if edges == 0 {
+					continue
+				}
+				for _, a := range alpha {
+					for _, b := range append([]hop{{}}, alpha...) {
+						hh := []hop{a}
+						if b.kind != 0 {
+							hh = append(hh, b)
+						}
+						interesting := false
+						for _, o := range hh {
+							if o.kind == 'P' {
+								interesting = true
+							}
+						}
+						if len(hh) == 2 && hh[0].kind == 'R' && hh[1].kind == 'E' {
+							continue // nothing runs after the eviction
+						}
+						if len(hh) == 1 && a.kind == 'R' && maxKids >= 2 {
+							interesting = true // a single run already forks
+						}
+						if !interesting {
+							continue
+						}
+						if n == 4 && !(len(hh) == 1) {
+							continue
+						}
+						for par := 1; par <= 3; par++ {
+							if h.Expired() || h.TooMany() {
+								return
+							}
+							name := fmt.Sprintf("C33/il/n%d/%s/par%d/%s", n, w0.String(), par, histString(hh))
+							h.Explore(hx.Scn{Name: name, Bounds: tape.B(pb, 0, 0, 1), Prune: true, Body: c33Body(mk, hh, par)})
+						}
+					}
+				}
+			}
+		}
+	}
+}
+
+func c33Body(mk func() *world, hist []hop, par int) func(r *tape.Run) {
+	return func(r *tape.Run) {
+		w := mk()
+		vsemaphore.VerifReset()
+		ex := incremental.New(incremental.WithParallelism(int64(par)))
+		sema := vsemaphore.VerifNth(1)
+		cached := [maxN]bool{}
+		runIdx := 0
+		fail := func(sig, format string, args ...any) {
+			r.Fail(sig, "graph %s parallelism %d history %s: %s", w, par, histString(hist), fmt.Sprintf(format, args...))
+		}
+		checkRun := func(rr *runResult) bool {
+			if rr.panicked != nil || rr.err != nil {
+				fail("run-failed", "Run%v failed: %v %s", rr.roots, rr.panicked, short(rr.err))
+				return false
+			}
+			for i, res := range rr.res {
+				if res.Fatal != nil {
+					fail("fatal", "root %d fatal: %s", rr.roots[i], short(res.Fatal))
+					return false
+				}
+				if want := w.eval(rr.roots[i]); res.Value != want {
+					fail("stale-value", "Run%v: root %d = %d, a fresh computation gives %d", rr.roots, rr.roots[i], res.Value, want)
+					return false
+				}
+			}
+			cl := w.closure(rr.roots)
+			want := 0
+			for i := 0; i < w.n; i++ {
+				if cl[i] {
+					want++
+				}
+			}
+			if len(rr.diagText) != want {
+				fail("diagnostics", "Run%v reported %d diagnostics %v, want one per reachable query (%d)", rr.roots, len(rr.diagText), rr.diagText, want)
+				return false
+			}
+			return true
+		}
+		s := hx.RunCoop(r, 0, func() {
+			for _, op := range hist {
+				if r.Failure != "" {
+					return
+				}
+				before := [maxN]int{}
+				for i := range before {
+					before[i] = len(w.execs[i])
+				}
+				var runs []*runResult
+				switch op.kind {
+				case 'R':
+					runIdx++
+					runs = append(runs, doRun(w, ex, runIdx, op.s1))
+				case 'P':
+					a, b := runIdx+1, runIdx+2
+					runIdx += 2
+					res := make([]*runResult, 2)
+					pending := 2
+					for k, cfg := range []struct {
+						idx   int
+						roots []int
+					}{{a, op.s1}, {b, op.s2}} {
+						coop.Go(func() {
+							res[k] = doRun(w, ex, cfg.idx, cfg.roots)
+							pending--
+						})
+					}
+					coop.Point("join", func() bool { return pending == 0 })
+					runs = append(runs, res...)
+				case 'E':
+					w.version[op.node] += 100
+					ex.Evict(nodeKey{op.node})
+					if cached[op.node] {
+						for j := 0; j < w.n; j++ {
+							if w.reaches(j, op.node) {
+								cached[j] = false
+							}
+						}
+					}
+					continue
+				}
+				// reference cache model: exactly the needed, uncached queries execute, once each
+				var needed [maxN]bool
+				for _, rr := range runs {
+					if rr == nil {
+						fail("run-missing", "a Run did not return")
+						return
+					}
+					cl := w.closure(rr.roots)
+					for i := range cl {
+						needed[i] = needed[i] || cl[i]
+					}
+				}
+				for i := 0; i < w.n; i++ {
+					got := len(w.execs[i]) - before[i]
+					want := 0
+					if needed[i] && !cached[i] {
+						want = 1
+					}
+					if got != want {
+						sig := "executed-again"
+						if got < want {
+							sig = "not-recomputed"
+						}
+						fail(sig, "%s: query %d executed %d times, the cache model says %d", op, i, got, want)
+						return
+					}
+					if needed[i] {
+						cached[i] = true
+					}
+				}
+				for _, rr := range runs {
+					if !checkRun(rr) {
+						return
+					}
+				}
+			}
+		})
+		r.Outcome = fmt.Sprintf("execs=%v", func() []int {
+			o := make([]int, w.n)
+			for i := range o {
+				o[i] = len(w.execs[i])
+			}
+			return o
+		}())
+		if !checkSched(r, s) {
+			return
+		}
+		if r.Failure != "" {
+			return
+		}
+		if sema != nil && sema.VerifHeld() != 0 {
+			fail("permit-leak", "%d permits still held", sema.VerifHeld())
+			return
+		}
+		// Changed: every observation of (run, query) agrees, and equals "executed during that run"
+		for key, flags := range w.changed {
+			run, q := key[0], key[1]
+			exec := false
+			for _, e := range w.execs[q] {
+				if e == run {
+					exec = true
+				}
+			}
+			for _, f := range flags {
+				if f != exec {
+					fail("changed-flag", "run %d saw Changed=%v for query %d, which %s computed during that run (all observations: %v)", run, f, q, map[bool]string{true: "was", false: "was not"}[exec], flags)
+					return
+				}
+			}
+		}
+	}
 }
